@@ -655,6 +655,17 @@ func (e *Engine) fmtTyped(s *State, verb byte, v Value, t types.Type) Value {
 		}
 		return StrV{"<slice>"}
 	case *ArrayV:
+		if t != nil && types.TypeString(t, nil) == "github.com/google/uuid.UUID" && len(x.E) == 16 {
+			// canonical 8-4-4-4-12 lower-case hex, as (uuid.UUID).String() renders it
+			var cells []*Term
+			for i, b := range x.E {
+				if i == 4 || i == 6 || i == 8 || i == 10 {
+					cells = append(cells, BVInt('-', 8))
+				}
+				cells = append(cells, hexCells([]*Term{b.(*Term)})...)
+			}
+			return mkStr(cells)
+		}
 		return StrV{"<array>"}
 	case *StructV:
 		return StrV{"<struct>"}
